@@ -87,6 +87,18 @@ structure SecLoopSt where
   flags : List PyVal := []
   flagLines : List PyVal := []
 
+/-- append the rightmost number `n` (or, after a 'through', the whole elided range down to it) -/
+def secRangeStep (st : SecLoopSt) (n : Int) : SecLoopSt :=
+  if st.foundThrough then
+    let prev : Int := (pyInt? (st.working.getLast?.getD [])).getD 0
+    let r := elidedRange n prev
+    let st1 := if r.2 then st else
+      let flag := "nonsequential_sections".toList
+      let line := flag ++ "<".toList ++ intToStr n ++ " - ".toList ++ intToStr prev ++ ">".toList
+      { st with flags := st.flags ++ [.str flag], flagLines := st.flagLines ++ [.tup [.str flag, .str line]] }
+    { st1 with working := st1.working ++ r.1.map pad2 }
+  else { st with working := st.working ++ [pad2 n] }
+
 def secLoop (txt : Str) : Nat → Nat → SecLoopSt → SecLoopSt × Bool
   | 0, _, st => (st, true)
   | fuel+1, endpos, st =>
@@ -96,18 +108,7 @@ def secLoop (txt : Str) : Nat → Nat → SecLoopSt → SecLoopSt × Bool
       let secNum := (getRightmost multisec "sec" mo txt).getD []
       let endpos' := if isMulti multisec "sec" mo txt == some true then startOfRightmost multisec mo else 0
       let n : Int := (pyInt? secNum).getD 0
-      let newSec := pad2 n
-      let st' :=
-        if st.foundThrough then
-          let prev : Int := (pyInt? (st.working.getLast?.getD [])).getD 0
-          let (rng, correct) := elidedRange n prev
-          let st1 := if correct then st else
-            let flag := "nonsequential_sections".toList
-            let line := flag ++ "<".toList ++ intToStr n ++ " - ".toList ++ intToStr prev ++ ">".toList
-            { st with flags := st.flags ++ [.str flag], flagLines := st.flagLines ++ [.tup [.str flag, .str line]] }
-          { st1 with working := st1.working ++ rng.map pad2 }
-        else { st with working := st.working ++ [newSec] }
-      secLoop txt fuel endpos' { st' with foundThrough := thruRightmost multisec mo txt }
+      secLoop txt fuel endpos' { secRangeStep st n with foundThrough := thruRightmost multisec mo txt }
 
 def unpackSections (txt : Str) : SecResult :=
   let (st, dv) := secLoop txt (txt.length + 2) txt.length {}
@@ -149,6 +150,29 @@ structure LotLoopSt where
 
 def lotName (i : Int) : Str := 'L' :: intToStr i
 
+def lotRangeStep (st : LotLoopSt) (n : Int) : LotLoopSt :=
+  if st.foundThrough then
+    let prev : Int := st.working.getLast?.getD 0
+    let r := elidedRange n prev
+    let st0 := if r.2 then st else
+      let flag := "nonsequential_lots".toList
+      let line := flag ++ "<".toList ++ intToStr n ++ " - ".toList ++ intToStr prev ++ ">".toList
+      { st with flags := st.flags ++ [.str flag], flagLines := st.flagLines ++ [.tup [.str flag, .str line]] }
+    { st0 with working := st0.working ++ r.1 }
+  else { st with working := st.working ++ [n] }
+
+def lotAcreStep (st : LotLoopSt) (n : Int) (acreage : Option Str) : LotLoopSt :=
+  match acreage with
+  | none => st
+  | some a =>
+    let name := lotName n
+    let st' : LotLoopSt := match dictGet? st.lotAcres name with
+      | some old =>
+        let flag := "dup_lot_acreage<".toList ++ name ++ "(".toList ++ old ++ ")>".toList
+        { st with flags := st.flags ++ [PyVal.str flag], flagLines := st.flagLines ++ [PyVal.tup [.str flag, .str flag]] }
+      | none => st
+    { st' with lotAcres := dictSet st'.lotAcres name a }
+
 def lotLoop (txt : Str) : Nat → Nat → LotLoopSt → LotLoopSt × Bool
   | 0, _, st => (st, true)
   | fuel+1, endpos, st =>
@@ -159,26 +183,7 @@ def lotLoop (txt : Str) : Nat → Nat → LotLoopSt → LotLoopSt × Bool
       let acreage := getRightmostAcreage mo txt
       let endpos' := if isMulti multilot "lot" mo txt == some true then startOfRightmost multilot mo else 0
       let n : Int := (pyInt? lotNumS).getD 0
-      let st1 :=
-        if st.foundThrough then
-          let prev : Int := st.working.getLast?.getD 0
-          let (rng, correct) := elidedRange n prev
-          let st0 := if correct then st else
-            let flag := "nonsequential_lots".toList
-            let line := flag ++ "<".toList ++ intToStr n ++ " - ".toList ++ intToStr prev ++ ">".toList
-            { st with flags := st.flags ++ [.str flag], flagLines := st.flagLines ++ [.tup [.str flag, .str line]] }
-          { st0 with working := st0.working ++ rng }
-        else { st with working := st.working ++ [n] }
-      let st2 := match acreage with
-        | none => st1
-        | some a =>
-          let name := lotName n
-          let st' := match dictGet? st1.lotAcres name with
-            | some old =>
-              let flag := "dup_lot_acreage<".toList ++ name ++ "(".toList ++ old ++ ")>".toList
-              ({ st1 with flags := st1.flags ++ [PyVal.str flag], flagLines := st1.flagLines ++ [PyVal.tup [.str flag, .str flag]] } : LotLoopSt)
-            | none => st1
-          { st' with lotAcres := dictSet st'.lotAcres name a }
+      let st2 := lotAcreStep (lotRangeStep st n) n acreage
       let ft := thruRightmost multilot mo txt
       let st3 := { st2 with foundThrough := ft }
       let st4 := if (multilot.group mo txt "word_lot_rightmost").isSome && !ft
